@@ -471,3 +471,46 @@ Definition sd_block_at (d : subdir) (rest : bytes) : list (bytes * stat) :=
 Definition sd_wf (ds : list subdir) : Prop :=
   Forall (fun d => wf_name (sd_name d) /\ st_is_dir (sd_stat d) = true /\ wf_tree (sd_tree d)) ds
   /\ NoDup (map sd_name ds).
+
+(* ---------- SubDirFS, any target; nested composites ---------- *)
+(* what one sub-root contributes to a walk whose target is cut into first / rest: its block at rest
+   if first is empty or equals its name, nothing otherwise *)
+Definition sd_select (first rest : bytes) (d : subdir) : list (bytes * stat) :=
+  if bytes_eqb first [] || bytes_eqb first (sd_name d) then sd_block_at d rest else [].
+
+(* the outer subDirFS.Walk applied to one inner callback, declaratively: outer name in front of the
+   callback path, prefix_stat on the Stat *)
+Definition nest_rewrite (oname : bytes) (c : bytes * stat) : bytes * stat :=
+  (oname ++ sep :: fst c, prefix_stat oname (snd c)).
+
+(* SubDirFS over ONE sub-root (Stat ost) whose FS is SubDirFS(inner): both constructors, then
+   subDirFS.Walk of the outer object with the inner subDirFS.Walk as d.FS.Walk (None = a constructor
+   refused).  This is the model component of Glue.C09G.nested_judge (kind 0906). *)
+Definition walk_nested (ost : stat) (inner : list subdir) (target : bytes) : option (list (bytes * stat) * bool) :=
+  let oname := st_path ost in
+  if negb (bytes_eqb (base oname) oname) then None
+  else match walk_subdirs inner [] with
+       | None => None
+       | Some _ =>
+         let (first, rest) := cut_sep target in
+         if negb (bytes_eqb first []) && negb (bytes_eqb first oname) then Some ([], false)
+         else if negb (st_is_dir ost) then Some ([], true)
+         else match walk_subdirs inner rest with
+              | None => None
+              | Some (out, e) =>
+                Some ((oname, ost) :: map (fun c => (join2 oname (fst c), sub_rewrite oname (snd c))) out, e)
+              end
+       end.
+
+(* the specification listing of the nested walk, for any target *)
+Definition nested_listing (ost : stat) (inner : list subdir) (target : bytes) : list (bytes * stat) :=
+  let oname := st_path ost in
+  let first := fst (cut_sep target) in
+  let rest := snd (cut_sep target) in
+  if bytes_eqb first [] || bytes_eqb first oname
+  then (oname, ost) :: map (nest_rewrite oname)
+                           (flat_map (sd_select (fst (cut_sep rest)) (snd (cut_sep rest))) (isort_sd inner))
+  else [].
+
+(* the Stats given for the sub-roots carry no Linkname (they are directory Stats) *)
+Definition no_linkname (ds : list subdir) : Prop := Forall (fun d => st_linkname (sd_stat d) = []) ds.
